@@ -316,9 +316,10 @@ Expect(sem, status, st, res) ==
 
 \* deviation `preinc-missing-index`: the pinned code yields null instead of the new value for a
 \* prefix ++/-- whose target is an index of an array that does not exist yet (y.k[0] with y.k missing)
-PreMissingIndex(st, op) ==
-  /\ op.kind \in {"preinc", "predec"} /\ Len(op.p.sels) >= 2 /\ op.p.sels[Len(op.p.sels)].s = "idx"
-  /\ ReadFrom(st, st.env[op.p.base], Prefix(op.p.sels)).t = "missing"
+PreShape(op) == op.kind \in {"preinc", "predec"} /\ Len(op.p.sels) >= 2 /\ op.p.sels[Len(op.p.sels)].s = "idx"
+PreMissingIndex(st, op) == PreShape(op) /\ ReadFrom(st, st.env[op.p.base], Prefix(op.p.sels)).t = "missing"
+\* the same under the slice-header semantics (an alias may be shorter there)
+PreMissingIndexG(st, op) == PreShape(op) /\ GReadAt(st, st.env[op.p.base], Prefix(op.p.sels), FALSE).res.t = "missing"
 
 \* apply op to all three semantics
 Apply2(h, c, g, o, op, rI) ==
@@ -335,7 +336,10 @@ Apply2(h, c, g, o, op, rI) ==
   IN [hist |-> Append(h, op),
       cur |-> [s \in Sems |-> CASE s = "I" -> rI.st [] s = "G0" -> r0.st [] OTHER -> r1.st],
       gst |-> [s \in Sems |-> CASE s = "I" -> rI.status [] s = "G0" -> r0.status [] OTHER -> r1.status],
-      out |-> Append(o, [exp |-> eI, skip |-> skip, pre |-> PreMissingIndex(c["I"], op), kind |-> op.kind,
+      out |-> Append(o, [exp |-> eI, skip |-> skip, kind |-> op.kind,
+                         pre |-> [I |-> PreMissingIndex(c["I"], op),
+                                  g0 |-> g["G0"] = "ok" /\ PreMissingIndexG(c["G0"], op),
+                                  g1 |-> g["G1"] = "ok" /\ PreMissingIndexG(c["G1"], op)],
                          dev |-> [d \in devs |-> IF d = "g0" THEN e0 ELSE e1],
                          taint |-> [g0 |-> r0.st.taint > 0, g1 |-> r1.st.taint > 0]]),
       fin |-> (rI.status # "ok" \/ skip # {}),
